@@ -40,7 +40,22 @@ def impl_digest(case):
             via_add = [k for k in cs.checksums], [list(v) for v in cs.checksums.values()]
         except Exception as e:
             via_add = ["err", type(e).__name__]
-        return [want, got, via_add]
+        # the digest is a function of the content at the time of the call: replace the content in place by other bytes of the
+        # same length and restore the timestamps (what cp -p / rsync -t do), then ask again
+        again = None
+        if case["size"] > 0 and want[0] == "ok":
+            st = os.stat(path)
+            data2 = bytes((b + 1) % 256 for b in data[:64]) + data[64:]
+            with open(path, "r+b") as f:
+                f.write(data2)
+            os.utime(path, ns=(st.st_atime_ns, st.st_mtime_ns))
+            want2 = ["ok", hashlib.new(case["alg"], data2).hexdigest().lower()]
+            try:
+                got2 = ["ok", TI.compute_checksum(path, case["alg"])]
+            except Exception as e:
+                got2 = ["err", type(e).__name__]
+            again = [want2, got2]
+        return [want, got, via_add, again]
     finally:
         shutil.rmtree(work, ignore_errors=True)
 
